@@ -109,6 +109,9 @@ type loopCtx struct {
 	contK   cont
 	exitK   func(code int) []string
 	escapes []string // labels the body jumps to
+	// third part: `range P` over a slice value — Lean name of the root of P and the field path
+	rangeVar  string
+	rangePath []string
 }
 
 type errVar struct {
@@ -317,6 +320,10 @@ func (c *codegen) intIndex(e ast.Expr) string {
 
 func (c *codegen) indexExpr(x *ast.IndexExpr) (string, gtype) {
 	s, t := c.expr(x.X, gtype{}, false)
+	if t.kind == kGSlice {
+		i := c.intIndex(x.Index)
+		return c.bindRes("t", "GSlice.index "+c.zeroTyped(*t.elem, x)+" "+paren(s)+" "+i, x), *t.elem
+	}
 	if t.kind != kBytes {
 		c.fail(x, "index expression on %s (only []byte values)", t)
 	}
@@ -329,7 +336,7 @@ func (c *codegen) sliceExpr(x *ast.SliceExpr) (string, gtype) {
 		c.fail(x, "3-index slice expression")
 	}
 	s, t := c.expr(x.X, gtype{}, false)
-	if t.kind != kBytes {
+	if t.kind != kBytes && t.kind != kGSlice {
 		c.fail(x, "slice expression on %s (only []byte values)", t)
 	}
 	lo, hi := "0", "(Int.ofNat "+paren(s)+".len)"
@@ -338,6 +345,9 @@ func (c *codegen) sliceExpr(x *ast.SliceExpr) (string, gtype) {
 	}
 	if x.High != nil {
 		hi = c.intIndex(x.High)
+	}
+	if t.kind == kGSlice {
+		return c.bindRes("t", "GSlice.slice "+paren(s)+" "+lo+" "+hi, x), t
 	}
 	return c.bindRes("t", "Slice.slice "+paren(s)+" "+lo+" "+hi, x), gtype{kind: kBytes}
 }
@@ -378,6 +388,9 @@ func (c *codegen) compositeLit(x *ast.CompositeLit) (string, gtype) {
 		if !vt.eq(ft) {
 			c.fail(el, "field %s of type %s initialised with %s", key.Name, ft, vt)
 		}
+		if c.phase3 {
+			c.checkNoSliceAlias(ft, nil, kv.Value, el)
+		}
 		given[key.Name] = v
 	}
 	var fs []string
@@ -399,7 +412,7 @@ func (c *codegen) lenCap(name string, x *ast.CallExpr) (string, gtype) {
 	}
 	s, t := c.expr(x.Args[0], gtype{}, false)
 	switch {
-	case t.kind == kBytes:
+	case t.kind == kBytes || t.kind == kGSlice:
 		return "Int.ofNat " + paren(s) + "." + name, gtype{kind: kInt}
 	case t.kind == kSlice && name == "len":
 		return "Int.ofNat " + paren(s) + ".length", gtype{kind: kInt}
@@ -500,13 +513,17 @@ func (c *codegen) makeCall(x *ast.CallExpr) (string, gtype) {
 	if len(x.Args) < 2 || len(x.Args) > 3 {
 		c.fail(x, "make with %d arguments", len(x.Args))
 	}
-	if t := c.typeOf(x.Args[0], x); t.kind != kBytes {
-		c.fail(x, "make of %s (only []byte)", t)
+	mt := c.typeOf(x.Args[0], x)
+	if mt.kind != kBytes && mt.kind != kGSlice {
+		c.fail(x, "make of %s (only []byte)", mt)
 	}
 	n := c.intIndex(x.Args[1])
 	cp := n
 	if len(x.Args) == 3 {
 		cp = c.intIndex(x.Args[2])
+	}
+	if mt.kind == kGSlice {
+		return c.bindRes("t", "GSlice.make "+c.zeroTyped(*mt.elem, x)+" "+n+" "+cp, x), mt
 	}
 	return c.bindRes("t", "Slice.make "+n+" "+cp, x), gtype{kind: kBytes}
 }
@@ -536,6 +553,8 @@ func (c *codegen) call2(k fnKey, recv ast.Expr, x *ast.CallExpr) ([]string, []gt
 				c.fail(x, "call of the mutating method %s on %s (only on a variable or field path)", fnName(k), c.src(recv))
 			}
 			recvVar, recvPath = c.path(recv)
+			c.checkRangeTarget(recvVar, recvPath, x)
+			c.checkRecvMutation(rootIdent(recv), x)
 		}
 		r, rt := c.expr(recv, gtype{}, false)
 		if rt.kind != kStruct || goStruct(rt.name) != k.recv {
@@ -564,6 +583,7 @@ func (c *codegen) call2(k fnKey, recv ast.Expr, x *ast.CallExpr) ([]string, []gt
 				c.fail(a, "argument %d of %s is written by the callee: only a variable or field path", i+1, fnName(k))
 			}
 			v, p := c.path(a)
+			c.checkRangeTarget(v, p, x)
 			outs = append(outs, outArg{v, p, a})
 		}
 	}
@@ -675,11 +695,15 @@ func (c *codegen) multiAssign(x *ast.AssignStmt) []string {
 				continue
 			}
 		}
+		if ix, _ := indexStep(l); ix != nil {
+			c.fail(x, "assignment of a call result to the element %s", c.src(l))
+		}
 		v, p := c.path(l)
 		t := c.pathType(v, p, l)
 		if !t.eq(types[i]) {
 			c.fail(x, "assignment of %s to %s of type %s", types[i], c.src(l), t)
 		}
+		c.checkRangeTarget(v, p, x)
 		lines = append(lines, "let "+v.lean+" : "+v.typ.lean()+" := "+update(v.lean, p, vals[i]))
 	}
 	return lines
@@ -727,9 +751,20 @@ func (c *codegen) loopStmt(x ast.Stmt, bodyStmt *ast.BlockStmt, rest []ast.Stmt,
 	// the range expression is evaluated once, before the loop
 	var rangeVal string
 	var rangeT gtype
+	// third part: range over a slice VALUE (GSlice, Slice) that is a variable or field path —
+	// recursion over the number of iterations left, elements are read from the current value
+	idxMode := false
+	var rangeRoot *varInfo
+	var rangePath []string
 	if rx != nil {
 		rangeVal, rangeT = c.expr(rx.X, gtype{}, false)
-		if rangeT.kind != kSlice {
+		if c.phase3 && (rangeT.kind == kGSlice || rangeT.kind == kBytes) {
+			if rootIdent(rx.X) == nil || indexOf(rx.X) != nil {
+				c.fail(x, "range over %s (a slice value must be a variable or a field path)", c.src(rx.X))
+			}
+			idxMode = true
+			rangeRoot, rangePath = c.path(rx.X)
+		} else if rangeT.kind != kSlice {
 			c.fail(x, "range over %s (only over a list-valued slice)", rangeT)
 		}
 		if len(c.cur.pre) != 0 {
@@ -750,6 +785,11 @@ func (c *codegen) loopStmt(x ast.Stmt, bodyStmt *ast.BlockStmt, rest []ast.Stmt,
 	}
 	if fx != nil && fx.Cond != nil {
 		note(fx.Cond)
+	}
+	if idxMode && rx.Value != nil {
+		if id, ok := rx.Value.(*ast.Ident); !ok || id.Name != "_" {
+			note(rx.X) // the elements are read inside of the loop function
+		}
 	}
 	note(bodyStmt)
 	// The loop function is closed (every variable it mentions is a parameter), so when the
@@ -802,6 +842,9 @@ func (c *codegen) loopStmt(x ast.Stmt, bodyStmt *ast.BlockStmt, rest []ast.Stmt,
 		return []string{strings.Join(callParts, " ") + " fuel " + strings.Join(stateNames, " ")}
 	}
 	lc := &loopCtx{contK: invoke}
+	if idxMode {
+		lc.rangeVar, lc.rangePath = rangeRoot.lean, rangePath
+	}
 	lc.exitK = func(code int) []string {
 		return []string{fmt.Sprintf("%s%d %s", exitMark, code, tupleVal(stateNames))}
 	}
@@ -843,7 +886,22 @@ func (c *codegen) loopStmt(x ast.Stmt, bodyStmt *ast.BlockStmt, rest []ast.Stmt,
 			body = append(body, "let "+v.lean+" : "+t.lean()+" := "+val)
 		}
 		bindIter(rx.Key, idxVar, gtype{kind: kInt})
-		bindIter(rx.Value, elemVar, *rangeT.elem)
+		if idxMode {
+			if id, ok := rx.Value.(*ast.Ident); rx.Value != nil && !(ok && id.Name == "_") {
+				// e := P[i], read from the current value of P (see the head of code_gslice.go)
+				cur, _ := c.expr(rx.X, gtype{}, false)
+				et := gtype{kind: kU8}
+				rd := "Slice.index " + paren(cur) + " " + idxVar
+				if rangeT.kind == kGSlice {
+					et = *rangeT.elem
+					rd = "GSlice.index " + c.zeroTyped(et, x) + " " + paren(cur) + " " + idxVar
+				}
+				body = append(body, "Res.bind ("+rd+") fun "+elemVar+" =>")
+				bindIter(rx.Value, elemVar, et)
+			}
+		} else {
+			bindIter(rx.Value, elemVar, *rangeT.elem)
+		}
 		body = append(body, c.block(bodyStmt.List, invoke)...)
 		c.pop()
 	} else {
@@ -897,14 +955,29 @@ func (c *codegen) loopStmt(x ast.Stmt, bodyStmt *ast.BlockStmt, rest []ast.Stmt,
 		what = "for " + condSrc
 		hdr += " : Nat → " + strings.Join(stateTypes, " → ") + " → Res (" + resT + ")"
 	} else {
-		what = "for " + c.src(rx.Key) + ", " + c.src(rx.Value) + " " + rx.Tok.String() + " range " + c.src(rx.X)
-		hdr += " : " + rangeT.lean() + " → Int → " + strings.Join(stateTypes, " → ") + " → Res (" + resT + ")"
+		kv := ""
+		if rx.Key != nil {
+			kv = c.src(rx.Key)
+		}
+		if rx.Value != nil {
+			kv += ", " + c.src(rx.Value)
+		}
+		what = "for " + kv + " " + rx.Tok.String() + " range " + c.src(rx.X)
+		if idxMode {
+			hdr += " : Nat → Int → " + strings.Join(stateTypes, " → ") + " → Res (" + resT + ")"
+		} else {
+			hdr += " : " + rangeT.lean() + " → Int → " + strings.Join(stateTypes, " → ") + " → Res (" + resT + ")"
+		}
 	}
 	doc := fmt.Sprintf("/-- the loop `%s { … }` of %s (%s); state (%s)", what, fnName(c.cur.key), c.pos(x), strings.Join(vars, ", "))
 	if fx != nil {
 		doc += "; `Res.fuel` when the fuel runs out"
 	} else {
-		doc += "; recursion over the remaining elements, the Int is the index"
+		if idxMode {
+			doc += "; recursion over the number of iterations left (len at the loop entry), the Int is the index"
+		} else {
+			doc += "; recursion over the remaining elements, the Int is the index"
+		}
 	}
 	if escapes {
 		doc += "; the first component of the result is the exit: 0 = the loop ended"
@@ -926,9 +999,17 @@ func (c *codegen) loopStmt(x ast.Stmt, bodyStmt *ast.BlockStmt, rest []ast.Stmt,
 			def = append(def, ind(resolve(body), 4)...)
 		}
 	} else {
-		def = append(def, "  | [], "+idxVar+", "+sn+" =>")
+		if idxMode {
+			def = append(def, "  | 0, "+idxVar+", "+sn+" =>")
+		} else {
+			def = append(def, "  | [], "+idxVar+", "+sn+" =>")
+		}
 		def = append(def, ind(resolve(lc.exitK(0)), 4)...)
-		def = append(def, "  | "+elemVar+" :: "+restVar+", "+idxVar+", "+sn+" =>")
+		if idxMode {
+			def = append(def, "  | "+restVar+" + 1, "+idxVar+", "+sn+" =>")
+		} else {
+			def = append(def, "  | "+elemVar+" :: "+restVar+", "+idxVar+", "+sn+" =>")
+		}
 		def = append(def, ind(resolve(body), 4)...)
 	}
 	c.cur.tmp = savedTmp
@@ -947,7 +1028,11 @@ func (c *codegen) loopStmt(x ast.Stmt, bodyStmt *ast.BlockStmt, rest []ast.Stmt,
 	r := c.newTmp("r")
 	var first string
 	if rx != nil {
-		first = strings.Join(callParts, " ") + " " + paren(rangeVal) + " 0 " + strings.Join(stateNames, " ")
+		if idxMode {
+			first = strings.Join(callParts, " ") + " " + paren(rangeVal) + ".len 0 " + strings.Join(stateNames, " ")
+		} else {
+			first = strings.Join(callParts, " ") + " " + paren(rangeVal) + " 0 " + strings.Join(stateNames, " ")
+		}
 	} else {
 		first = invoke()[0]
 	}
@@ -1360,6 +1445,9 @@ func (c *codegen) gen2(k fnKey, flags *fnSig, probe bool) (fnOut, *fnSig) {
 		c.fail(fd, "more than %d error constructors", errVarBase)
 	}
 	c.push() // depth 1: named results and the variables of the body
+	if c.phase3 {
+		c.checkSig3(fd, sig)
+	}
 	var body []string
 	for _, r := range sig.results {
 		if r.name != "" {
